@@ -49,7 +49,8 @@ Definition c20_mutating (op : c20_op) : bool :=
   match op with
   | C20_Set _ _ _ | C20_SetSlice _ _ _ _ _ | C20_IAdd _ _ | C20_ISub _ _ | C20_IAddL _ _ | C20_ISubL _ _
   | C20_IMulS _ _ | C20_IDivS _ _ | C20_IAddS _ _ | C20_ISubS _ _ | C20_Assign _ _ | C20_AssignL _ _
-  | C20_NSet _ _ _ | C20_NIMulS _ _ | C20_NIDivS _ _ | C20_NIAddS _ _ | C20_NISubS _ _ => true
+  | C20_NSet _ _ _ | C20_NIMulS _ _ | C20_NIDivS _ _ | C20_NIAddS _ _ | C20_NISubS _ _
+  | C20_SetSliceFrom _ _ _ _ _ | C20_ArrIAdd _ _ | C20_ArrISub _ _ | C20_ArrIMulS _ _ | C20_ArrIAddS _ _ => true
   | _ => false
   end.
 
@@ -58,6 +59,7 @@ Definition c20_target (op : c20_op) : option nat :=
   match op with
   | C20_Set r _ _ | C20_SetSlice r _ _ _ _ | C20_IAdd r _ | C20_ISub r _ | C20_IAddL r _ | C20_ISubL r _
   | C20_IMulS r _ | C20_IDivS r _ | C20_IAddS r _ | C20_ISubS r _ | C20_Assign r _ | C20_AssignL r _
-  | C20_NSet r _ _ | C20_NIMulS r _ | C20_NIDivS r _ | C20_NIAddS r _ | C20_NISubS r _ => Some r
+  | C20_NSet r _ _ | C20_NIMulS r _ | C20_NIDivS r _ | C20_NIAddS r _ | C20_NISubS r _
+  | C20_SetSliceFrom r _ _ _ _ | C20_ArrIAdd r _ | C20_ArrISub r _ | C20_ArrIMulS r _ | C20_ArrIAddS r _ => Some r
   | _ => None
   end.
